@@ -1,0 +1,26 @@
+//go:build verif
+
+package transport_controller
+
+import "io"
+
+// VerifStreamEstablishMaxPacketSize returns the configured maximum size of a
+// stream establish header.
+func VerifStreamEstablishMaxPacketSize() uint64 {
+	return streamEstablishMaxPacketSize
+}
+
+// VerifMarshalStreamEstablishHeader exposes marshalStreamEstablishHeader.
+func VerifMarshalStreamEstablishHeader(msg *StreamEstablish) []byte {
+	return marshalStreamEstablishHeader(msg)
+}
+
+// VerifWriteStreamEstablishHeader exposes writeStreamEstablishHeader.
+func VerifWriteStreamEstablishHeader(w io.Writer, msg *StreamEstablish) (int, error) {
+	return writeStreamEstablishHeader(w, msg)
+}
+
+// VerifReadStreamEstablishHeader exposes readStreamEstablishHeader.
+func VerifReadStreamEstablishHeader(r io.Reader) (*StreamEstablish, error) {
+	return readStreamEstablishHeader(r)
+}
